@@ -12,7 +12,7 @@
 
 struct hreg { const char* name; void (*fn)(void); };
 static struct hreg regs[256]; static int nregs;
-void h_register(const char* name, void (*fn)(void)) { regs[nregs].name = name; regs[nregs].fn = fn; nregs++; }
+void hn_register(const char* name, void (*fn)(void)) { regs[nregs].name = name; regs[nregs].fn = fn; nregs++; }
 
 static jmp_buf top; static int outcome; /* 0 pass 1 reject 2 fail 3 endpath */
 static char failmsg[256];
@@ -24,7 +24,7 @@ static uint64_t obs_hash; static int verbose;
 
 static uint64_t next64(void) { rng ^= rng << 13; rng ^= rng >> 7; rng ^= rng << 17; return rng * 0x2545F4914F6CDD1DULL; }
 
-uint64_t h_input(const char* name, int idx, int bits) {
+uint64_t hn_input(const char* name, int idx, int bits) {
   uint64_t mask = bits >= 64 ? ~0ULL : ((1ULL << bits) - 1);
   if (replay_mode) {
     for (int i = 0; i < nrv; i++) if (!strcmp(rvs[i].name, name) && rvs[i].idx == idx) return rvs[i].v & mask;
@@ -49,7 +49,7 @@ uint64_t h_input(const char* name, int idx, int bits) {
   if (verbose) printf("    in %s[%d]=%llu\n", name, idx, (unsigned long long)v);
   return v;
 }
-double h_input_double(const char* name) {
+double hn_input_double(const char* name) {
   if (replay_mode) { for (int i = 0; i < nrv; i++) if (!strcmp(rvs[i].name, name)) { if (rvs[i].isd) return rvs[i].d; double d; memcpy(&d, &rvs[i].v, 8); return d; } return 0.0; }
   uint64_t r = next64(); double d;
   static const double sp[] = {0.0, -0.0, 1.0, -1.0, 0.5, 1e308, -1e308, 4.9e-324, 2.2250738585072014e-308, 1.0/0.0, -1.0/0.0, 0.0/0.0, 1e-9, 100.0, 0.1, 3.0};
@@ -62,16 +62,16 @@ double h_input_double(const char* name) {
   if (verbose) printf("    in %s=%a\n", name, d);
   return d;
 }
-void h_reject(void) { outcome = 1; longjmp(top, 1); }
-void h_end_path(void) { outcome = 3; longjmp(top, 1); }
-void h_fail(const char* msg, int line) { outcome = 2; snprintf(failmsg, sizeof failmsg, "%s (harness line %d)", msg, line); longjmp(top, 1); }
+void hn_reject(void) { outcome = 1; longjmp(top, 1); }
+void hn_end_path(void) { outcome = 3; longjmp(top, 1); }
+void hn_fail(const char* msg, int line) { outcome = 2; snprintf(failmsg, sizeof failmsg, "%s (harness line %d)", msg, line); longjmp(top, 1); }
 void ll2c_native_abort(const char* why) { outcome = 2; snprintf(failmsg, sizeof failmsg, "ENGINE: %s", why); longjmp(top, 1); }
-void h_observe(const char* what, uint64_t v) {
+void hn_observe(const char* what, uint64_t v) {
   obs_hash = (obs_hash ^ v) * 0x100000001b3ULL; for (const char* p = what; *p; p++) obs_hash = (obs_hash ^ (uint8_t)*p) * 0x100000001b3ULL;
   if (verbose) printf("    obs %s=%llu\n", what, (unsigned long long)v);
 }
-void h_observe_str(const char* what, const char* s) {
-  if (!s) { h_observe(what, 0xdeadULL); return; }
+void hn_observe_str(const char* what, const char* s) {
+  if (!s) { hn_observe(what, 0xdeadULL); return; }
   for (const char* p = s; *p; p++) obs_hash = (obs_hash ^ (uint8_t)*p) * 0x100000001b3ULL;
   if (verbose) printf("    obs %s=\"%s\"\n", what, s);
 }
@@ -90,8 +90,8 @@ static int load_replay(const char* path) {
   fclose(f); return 0;
 }
 
-void h_native_reset(void) __attribute__((weak));
-void h_native_reset(void) {}
+void hn_native_reset(void) __attribute__((weak));
+void hn_native_reset(void) {}
 
 static int run_child(void (*fn)(void), int i) {
   /* each run in its own process: statics of the code under test start fresh, crashes are contained */
